@@ -78,6 +78,115 @@ theorem decode_encode (b : Bytes) : decode (encode b) = some b := by
   unfold decode
   rw [if_pos (encode_ascii b), decodeGo_encode]
 
+/-! ### the strict decoder (`b64decode(validate=True)`) -/
+
+/-- the alphabet is exactly the set of characters the decoder gives a value to -/
+theorem inAlphabet_eq_decChar (c : Char) : inAlphabet c = (decChar c).isSome := by
+  unfold inAlphabet decChar
+  simp only []
+  split
+  · next h => simp [h.1, h.2]
+  · split
+    · next h => simp [h.1, h.2]
+    · split
+      · next h => simp [h.1, h.2]
+      · split
+        · next h => simp [h]
+        · split
+          · next h => simp [h]
+          · next h1 h2 h3 h4 h5 =>
+            simp only [Option.isSome_none, Bool.or_eq_false_iff, Bool.and_eq_false_iff, decide_eq_false_iff_not,
+              beq_eq_false_iff_ne, ne_eq]
+            omega
+
+theorem encChar_inAlphabet (n : Nat) (hn : n < 64) : inAlphabet (encChar n) = true := by
+  rw [inAlphabet_eq_decChar, decChar_encChar n hn]; rfl
+
+theorem pad_not_inAlphabet : inAlphabet '=' = false := by decide
+
+theorem strictShape_cons (c : Char) (s : Str) (h : inAlphabet c = true) : strictShape (c :: s) = strictShape s := by
+  simp [strictShape, h]
+
+/-- `encode` emits alphabet characters followed by at most two `=` -/
+theorem encode_strictShape : ∀ (b : Bytes), strictShape (encode b) = true
+  | [] => by simp [encode, strictShape]
+  | [a] => by
+    have ha : a.toNat < 256 := a.toNat_lt
+    simp [encode, strictShape, encChar_inAlphabet (a.toNat / 4) (by omega),
+      encChar_inAlphabet (a.toNat % 4 * 16) (by omega), pad_not_inAlphabet]
+  | [a, b] => by
+    have ha : a.toNat < 256 := a.toNat_lt
+    have hb : b.toNat < 256 := b.toNat_lt
+    simp [encode, strictShape, encChar_inAlphabet ((a.toNat * 256 + b.toNat) / 1024) (by omega),
+      encChar_inAlphabet ((a.toNat * 256 + b.toNat) / 16 % 64) (by omega),
+      encChar_inAlphabet ((a.toNat * 256 + b.toNat) % 16 * 4) (by omega), pad_not_inAlphabet]
+  | a :: b :: c :: rest => by
+    have ha : a.toNat < 256 := a.toNat_lt
+    have hb : b.toNat < 256 := b.toNat_lt
+    have hc : c.toNat < 256 := c.toNat_lt
+    simp only [encode]
+    rw [strictShape_cons _ _ (encChar_inAlphabet _ (by omega)), strictShape_cons _ _ (encChar_inAlphabet _ (by omega)),
+      strictShape_cons _ _ (encChar_inAlphabet _ (by omega)), strictShape_cons _ _ (encChar_inAlphabet _ (by omega))]
+    exact encode_strictShape rest
+
+/-- **strict decode inverts encode**, for every byte string. -/
+theorem decodeStrict_encode (b : Bytes) : decodeStrict (encode b) = some b := by
+  unfold decodeStrict
+  rw [if_pos (encode_strictShape b), decode_encode]
+
+/-- the strict decoder only ever returns what the non-strict one returns -/
+theorem decodeStrict_some_decode (s : Str) (b : Bytes) (h : decodeStrict s = some b) : decode s = some b := by
+  unfold decodeStrict at h
+  split at h
+  · exact h
+  · cases h
+
+theorem mem_takeWhile_imp (p : Char → Bool) (c : Char) : ∀ l : Str, c ∈ l.takeWhile p → p c = true
+  | [], h => by simp at h
+  | x :: xs, h => by
+    rw [List.takeWhile_cons] at h
+    split at h
+    · next hx =>
+      rcases List.mem_cons.1 h with rfl | h'
+      · exact hx
+      · exact mem_takeWhile_imp p c xs h'
+    · simp at h
+
+/-- a text of the strict shape consists of alphabet characters and `=` only -/
+theorem strictShape_mem (s : Str) (h : strictShape s = true) (c : Char) (hc : c ∈ s) :
+    inAlphabet c = true ∨ c = '=' := by
+  rw [← List.takeWhile_append_dropWhile (p := inAlphabet) (l := s), List.mem_append] at hc
+  rcases hc with hc | hc
+  · exact Or.inl (mem_takeWhile_imp inAlphabet c _ hc)
+  · right
+    unfold strictShape at h
+    simp only [Bool.or_eq_true, beq_iff_eq] at h
+    rcases h with (h | h) | h <;> rw [h] at hc <;> simp at hc
+    · exact hc
+    · exact hc
+
+/-- **foreign characters are rejected**: one character outside `A–Z a–z 0–9 + / =` anywhere in the text and the strict
+    decoder fails (the non-strict one would skip it). -/
+theorem decodeStrict_rejects_foreign (s : Str) (h : ∃ c ∈ s, inAlphabet c = false ∧ c ≠ '=') :
+    decodeStrict s = none := by
+  obtain ⟨c, hc, hna, hne⟩ := h
+  unfold decodeStrict
+  split
+  · next hs =>
+    rcases strictShape_mem s hs c hc with h | h
+    · rw [hna] at h; cases h
+    · exact absurd h hne
+  · rfl
+
+/-- the strict shape is decided by the padding alone: no `=` inside, at most two at the end -/
+example : strictShape "QUJD".toList = true ∧ strictShape "QUI=".toList = true ∧ strictShape "QQ==".toList = true ∧
+    strictShape "Q===".toList = false ∧ strictShape "QQ==\n".toList = false ∧ strictShape "QQ=Q".toList = false ∧
+    strictShape "!!!!".toList = false ∧ strictShape "".toList = true := by decide
+/-- wrong length / padding is still the decoder's business -/
+example : decodeStrict "QQ".toList = none ∧ decodeStrict "QQ=".toList = none ∧ decodeStrict "QQ==".toList = some [65] ∧
+    decode "!!!!".toList = some [] ∧ decodeStrict "!!!!".toList = none ∧
+    decode "QQ==!!??".toList = some [65] ∧ decodeStrict "QQ==!!??".toList = none := by decide
+
 theorem hexVal_hexChar : ∀ n, n < 16 → hexVal (hexChar n) = some n := by decide
 theorem hexChar_not_space : ∀ n, n < 16 → isHexSpace (hexChar n) = false := by decide
 
